@@ -172,7 +172,7 @@ LEAN_TYPE = {'Int': 'Int', 'Str': 'Str', 'Bytes': 'Str', 'Bool': 'Bool', 'TD': '
              'PyDate': 'PyDate', 'PyDateTime': 'PyDateTime', 'PyTime': 'PyTime', 'None': 'Unit', 'StrList': 'List Str',
              'Truth': 'Bool', 'Char': 'Char', 'OptInt': 'Option Int', 'Builder': 'Str', 'IntList': 'List Int',
              'Unbound:Int': 'Option Int', 'D': 'Trig', 'OptD': 'Option Trig', 'TDS': 'Int', 'OptTDS': 'Option Int', 'DList': 'List Trig',
-             'ATList': 'List AT', 'Comp': 'Comp', 'CompList': 'List Comp', 'Fn:Comp:Bool': 'Comp → Bool', 'Object': 'Unit', 'U:PyDDD': 'PyDDD', 'U:RVals': 'PyOneMany RV', 'IV': 'PyIV', 'Vals': 'PyVals', 'Val': 'Val', 'ValList': 'List Val',
+             'ATList': 'List AT', 'Comp': 'Comp', 'CompList': 'List Comp', 'Fn:Comp:Bool': 'Comp → Bool', 'Object': 'Unit', 'U:PyDDD': 'PyDDD', 'U:RVals': 'PyOneMany RV', 'U:ArgU': 'PyOneMany PV', 'U:StoredU': 'PyOneMany OV', 'IV': 'PyIV', 'Vals': 'PyVals', 'Val': 'Val', 'ValList': 'List Val',
              'Store': 'CDict.Store V', 'StepOut': 'CDict.Store V × CDict.Out V', 'V': 'V', 'OptV': 'Option V', 'Msg': 'Unit', 'ExcVal': 'Exc', 'Item': 'PyItem', 'ItemList': 'List PyItem', 'EntryList': 'List Entry'}
 
 
@@ -201,7 +201,7 @@ def lean_type(t):
 def opaque_types(texts):
     """the opaque type parameters (single capital names that are no Lean type) mentioned in these Lean types"""
     known = {'Str', 'Int', 'Bool', 'Nat', 'Unit', 'Py', 'List', 'Option', 'Char', 'Exc', 'TD', 'Trig', 'Comp', 'Val', 'Entry',
-             'PyVals', 'PyItem', 'PyIV', 'PyDate', 'PyTime', 'PyDateTime', 'PyResult', 'Loop', 'Type', 'CDict', 'SE', 'Store', 'Out'}
+             'PyVals', 'PyItem', 'PyIV', 'PyDate', 'PyTime', 'PyDateTime', 'PyResult', 'PyOneMany', 'PyDDD', 'Loop', 'Type', 'CDict', 'SE', 'Store', 'Out'}
     out = []
     for t in texts:
         for w in re.findall(r"(?<![\w.'])[A-Z][A-Za-z]*(?![\w.'])", t):
@@ -347,6 +347,18 @@ TARGETS = [
             'typ(val).to_ical()': ('pexpr', 'part_to', ['typ', 'val'], 'Bytes'),
             'from_unicode': ('fun', 'from_unicode', ['Bytes'], 'Bytes')}, False, 'recur', None, None, 'Bytes',
            {'result': 'List:Bytes'}),
+    # ---- Component.add (C02).  `self` is an opaque mapping state `S` (self_type 'State:S'): `name in self`, `self[name]`,
+    # `self[name] = value` are parameters and the function returns the state it leaves.  The argument is one Python value
+    # or a list of them (`ArgU`), what is stored is one value object or a list (`StoredU`); `self._encode`,
+    # `isinstance(value, datetime)`, `tzp.localize_utc` are parameters
+    Target('cal.py', 'Component', 'add', 'Component_add', 'State:S', {},
+           {'isinstance(value, datetime)': ('expr', 'is_datetime', ['value'], 'Bool'),
+            'tzp.localize_utc': ('fun', 'localize_utc', ['U:ArgU'], 'U:ArgU'),
+            'self._encode': ('pfun', 'encode_value', ['Str', 'U:ArgU', 'PD', 'Int'], 'OV', {}),
+            'in self': ('contains', 'has_key', 'S'),
+            'self[]': ('pgetitem', 'get_item', 'Str', 'U:StoredU'),
+            'self[]=': ('setitem', 'set_item', 'Str', 'U:StoredU')}, False, 'add',
+           {'name': 'Str', 'value': 'U:ArgU', 'parameters': 'PD', 'encode': 'Int'}, None, 'S', {'value': 'U:StoredU'}),
     # ---- parser helpers
     Target('parser.py', None, 'dquote', 'dquote', None, {}, {'QUOTABLE.search': ('pred', 'quotable_search')}, False,
            'parser', {'val': 'Str'}),
@@ -524,7 +536,9 @@ class Widen(Exception):
 
 
 # union types `U:<Name>`: member type -> constructor; (Python classes an instance test names -> the constructors it accepts)
-UNIONS = {'RVals': {'members': {'RV': 'one', 'List:RV': 'many'}, 'lean': 'PyOneMany RV',
+UNIONS = {'ArgU': {'members': {'PV': 'one', 'List:PV': 'many'}, 'lean': 'PyOneMany PV', 'classes': {'list': ['many']}},
+          'StoredU': {'members': {'OV': 'one', 'List:OV': 'many'}, 'lean': 'PyOneMany OV', 'classes': {'list': ['many']}},
+          'RVals': {'members': {'RV': 'one', 'List:RV': 'many'}, 'lean': 'PyOneMany RV',
                     # SEQUENCE_TYPES of parser_tools.py must be (list, tuple): looked up on every run
                     'classes': {'SEQUENCE_TYPES': ['many']}},
           'PyDDD': {'members': {'PyDate': 'date', 'PyDateTime': 'dt', 'PyTime': 'time', 'TD': 'dur'},
@@ -542,14 +556,15 @@ def to_union(v, want):
     u = UNIONS.get(want[2:]) if want.startswith('U:') else None
     if u is None:
         return None
+    head = u.get('lean', want[2:]).split()[0]
     if v.type in u['members']:
-        return V(f'({want[2:]}.{u["members"][v.type]} {v.lean})', want, None)
+        return V(f'({head}.{u["members"][v.type]} {v.lean})', want, None)
     if v.type == 'Tuple' and len(v.elts) == 2 and 'pair' in u:
         a, b = (x if x.type == want else to_union(x, want) for x in v.elts)
         if a is not None and b is not None:
-            return V(f'({want[2:]}.{u["pair"]} {a.lean} {b.lean})', want, None)
+            return V(f'({head}.{u["pair"]} {a.lean} {b.lean})', want, None)
     if v.type == f'Tuple:{want[2:]} × {want[2:]}' and 'pair' in u:
-        return V(f'({want[2:]}.{u["pair"]} {v.lean}.1 {v.lean}.2)', want, None)
+        return V(f'({head}.{u["pair"]} {v.lean}.1 {v.lean}.2)', want, None)
     return None
 
 
@@ -589,7 +604,7 @@ def assigned(nodes):
         for n in ast.walk(s):
             name = n.id if isinstance(n, ast.Name) and isinstance(n.ctx, ast.Store) else \
                 n.func.value.id if is_append(n) else "out'" if isinstance(n, ast.Yield) else \
-                n.targets[0].value.id if isinstance(n, ast.Assign) and len(n.targets) == 1 and isinstance(n.targets[0], ast.Attribute) \
+                n.targets[0].value.id if isinstance(n, ast.Assign) and len(n.targets) == 1 and isinstance(n.targets[0], (ast.Attribute, ast.Subscript)) \
                 and isinstance(n.targets[0].value, ast.Name) and n.targets[0].value.id != 'self' else None
             if name is not None and name not in out:
                 out.append(name)
@@ -716,6 +731,13 @@ class Fn:
                 and 'isinstance' not in self.modnames and len(node.args) == 2 and not node.keywords \
                 and isinstance(node.args[0], ast.Name) and node.args[0].id in env and isinstance(node.args[1], ast.Name):
             typ, what = env[node.args[0].id].type, node.args[1].id
+            xv = env[node.args[0].id]
+            if typ.startswith('U:') and xv.lean in self.narrow and what in UNIONS[typ[2:]]['classes']:
+                # a value of a union already known to be of one member
+                u, nv = UNIONS[typ[2:]], self.narrow[xv.lean]
+                ctor = u.get('pair') if nv.type == 'Tuple' else u['members'].get(nv.type)
+                if ctor is not None:
+                    return ctor in u['classes'][what]
             if what == 'str' and 'str' not in self.modnames and typ in ('None', 'Str'):
                 return typ == 'Str'
             if what == 'cls' and self.cls is not None and typ in ('None', 'Str', 'Int') and self.plain_class(self.cls):
@@ -923,6 +945,13 @@ class Fn:
                 self.fail(node, f'self[..] with a key of type {k.type}')
             f = self.param(e[1], f'Comp → Str → Py {lean_type(e[2])}')     # CaselessDict.__getitem__: external, may raise
             return self.hoist(node, f"{f.lean} (Comp.mk name' props' subs') {k.lean}", e[2])
+        if isinstance(node.value, ast.Name) and node.value.id in env and not isinstance(node.slice, ast.Slice) \
+                and self.t.externals.get(node.value.id + '[]', ('',))[0] == 'pgetitem':
+            e, obj, k = self.t.externals[node.value.id + '[]'], env[node.value.id], self.expr(node.slice, env)
+            if k.type != e[2]:
+                self.fail(node, f'`{ast.unparse(node)[:40]}`: key of type {k.type}, declared {e[2]}')
+            f = self.param(e[1], f'{lean_type(obj.type)} → {lean_type(e[2])} → Py {"(" + lean_type(e[3]) + ")" if " " in lean_type(e[3]) else lean_type(e[3])}')
+            return self.hoist(node, f'{f.lean} {obj.lean} {k.lean}', e[3])      # KeyError when the key is missing
         v, sl = self.expr(node.value, env), node.slice
         if v.type == 'Tuple' and isinstance(sl, ast.Constant) and type(sl.value) is int and 0 <= sl.value < len(v.elts):
             return v.elts[sl.value]     # a component of a tuple display
@@ -962,6 +991,8 @@ class Fn:
             self.fail(node, '`self` of a dict method outside `super().<m>(..)`')
         if node.id == 'self' and self.objself:
             return V("(Comp.mk name' props' subs')", 'Comp', None)
+        if node.id == 'self' and 'self' in env:
+            return env['self']
         if node.id == 'self':
             if self.t.self_type is None:
                 self.fail(node, '`self` used as a value')
@@ -1154,6 +1185,8 @@ class Fn:
         if k in ('In', 'NotIn') and a.type == 'Int' and b.type == 'Tuple' and b.elts and all(e.type == 'Int' for e in b.elts):
             lst = '([' + ', '.join(e.lean for e in b.elts) + '] : List Int)'
             return V(f'({neg}{lst}.contains {a.lean})', 'Bool', None)
+        if a.type == 'Str' and b.type == 'StrList' and k in ('In', 'NotIn') and isinstance(node.comparators[0], ast.List):
+            return V(f'({"" if k == "In" else "!"}{b.lean}.contains {a.lean})', 'Bool', None)
         if a.type == 'Str' and b.type == 'Tuple' and k in ('In', 'NotIn') and all(e.lits is not None for e in b.elts):
             lst = '([' + ', '.join(e.lean for e in b.elts) + '] : List Str)'
             return V(f'({"" if k == "In" else "!"}{lst}.contains {a.lean})', 'Bool', None)
@@ -1533,6 +1566,10 @@ class Fn:
         if isinstance(fn, ast.Attribute) and isinstance(fn.value, ast.Name) and fn.value.id not in env and callee not in self.t.externals \
                 and self.modnames.get(fn.value.id) == 'def' and (fn.value.id, fn.attr) in self.registry:
             return self.call_class_method(node, fn.value.id, fn.attr, env)
+        if isinstance(fn, ast.Attribute) and isinstance(fn.value, ast.Name) and fn.value.id == 'cls' and 'cls' not in env \
+                and callee not in self.t.externals and (self.t.cls, fn.attr) in self.registry \
+                and [ast.unparse(x) for x in self.func.decorator_list] == ['classmethod']:
+            return self.call_class_method(node, self.t.cls, fn.attr, env)
         if isinstance(fn, ast.Attribute) and isinstance(fn.value, ast.Call) and isinstance(fn.value.func, ast.Name) \
                 and callee not in self.t.externals and ast.unparse(node) not in self.t.externals \
                 and fn.value.func.id not in env and self.modnames.get(fn.value.func.id) == 'def' \
@@ -1543,6 +1580,10 @@ class Fn:
             x = self.expr(fn.value, env)
             if x.type == 'Str' and lits and all(isinstance(l, ast.Constant) and isinstance(l.value, str) for l in lits):
                 return V('(' + ' || '.join(f'startsWith {x.lean} {X.lstr(l.value)}' for l in lits) + ')', 'Bool', None)
+        if isinstance(fn, ast.Attribute) and fn.attr == 'lower' and not node.args and not node.keywords:
+            x = self.expr(fn.value, env)
+            if x.type == 'Str':     # ASCII lower-casing (the models' convention; Python's is Unicode)
+                return V(f'(lower {x.lean})', 'Str', None)
         if isinstance(fn, ast.Attribute) and fn.attr == 'upper' and not node.args and not node.keywords:
             x = self.expr(fn.value, env)
             if x.type == 'Str':     # ASCII upper-casing (the models' convention; Python's is Unicode)
@@ -1567,6 +1608,8 @@ class Fn:
             e = self.t.externals[callee]        # a method of `self` that stays external: a function of the component
             f = self.param(e[1], f'Comp → {lean_type(e[2])}')
             return V(f"({f.lean} (Comp.mk name' props' subs'))", e[2], None)
+        if callee == 'isinstance' and 'isinstance' not in self.modnames and self.static(node, env) is not None:
+            return V('true' if self.static(node, env) else 'false', 'Bool', None)      # decided by what is known of the value
         if callee == 'isinstance' and 'isinstance' not in self.modnames and len(node.args) == 2 and not node.keywords \
                 and isinstance(node.args[1], ast.Name) and node.args[1].id == 'list' and 'list' not in self.modnames:
             x = self.expr(node.args[0], env)
@@ -1627,6 +1670,7 @@ class Fn:
                 self.fail(node, f'external call {callee}: keyword arguments differ from the declared {list(kws)}')
             args = self.call_args(node, env) + [self.expr(k.value, env) for k in node.keywords]
             want = ext[2] + list(kws.values())
+            args = [(to_union(a, w) or a) if w.startswith('U:') and a.type != w else a for a, w in zip(args, want)] if len(args) == len(want) else args
             if [a.type for a in args] != want:
                 self.fail(node, f'external call {callee}: argument types {[a.type for a in args]}, declared {want}')
             rt = 'None' if ext[0] == 'proc' else ext[3]
@@ -1655,8 +1699,7 @@ class Fn:
         if isinstance(fn, ast.Attribute):
             if node.keywords:
                 self.fail(node, f'call with keyword arguments `{ast.unparse(node)[:50]}`')
-            if fn.attr == 'encode' and len(node.args) == 1 and isinstance(node.args[0], ast.Constant) \
-                    and node.args[0].value == 'utf-8':
+            if fn.attr == 'encode' and len(node.args) == 1 and self.is_utf8(node.args[0]):
                 v = self.expr(fn.value, env)
                 if v.type != 'Str':
                     self.fail(node, f'.encode on a value of type {v.type}')
@@ -1677,6 +1720,12 @@ class Fn:
                 b = self.expr(node.args[0], env)
                 if b.type == 'Builder':         # a list of str that was only appended to: its concatenation
                     return V(b.lean, 'Str', None)
+            if fn.attr == 'join' and len(node.args) == 1 and isinstance(node.args[0], ast.Name) and node.args[0].id in env \
+                    and env[node.args[0].id].type in ('List:Bytes', 'List:Str', 'StrList'):
+                sep, xs = self.expr(fn.value, env), env[node.args[0].id]
+                et = 'Str' if xs.type == 'StrList' else xs.type[5:]
+                if sep.type == et:
+                    return V(f'(joinWith {sep.lean} {xs.lean})', et, None)
             if fn.attr == 'join' and len(node.args) == 1 and isinstance(node.args[0], ast.GeneratorExp):
                 g, sep = node.args[0], self.expr(fn.value, env)
                 c = g.generators[0]
@@ -1691,6 +1740,14 @@ class Fn:
                         elt = self.lazily(self.expr, g.elt, dict(env, **{c.target.id: V(x, 'Int', None)}))
                         if elt.type == 'Str':
                             return V(f'(joinWith {sep.lean} ({rng.lean}.map (fun {x} => {elt.lean})))', 'Str', None)
+                if sep.type in ('Str', 'Bytes') and len(g.generators) == 1 and not c.ifs and not c.is_async and isinstance(c.target, ast.Name):
+                    it0 = self.expr(c.iter, env)
+                    if it0.type.startswith('List:'):     # over a list of objects: the elements first (the first exception ends it), then the join
+                        lc = ast.copy_location(ast.ListComp(elt=g.elt, generators=g.generators), node)
+                        parts = self.e_ListComp(lc, env)
+                        if parts.type == 'List:' + sep.type:
+                            return V(f'(joinWith {sep.lean} {parts.lean})', sep.type, None)
+                        self.fail(node, f'join of a list of {parts.type[5:]} with a {sep.type}')
                 if sep.type == 'Str' and len(g.generators) == 1 and not c.ifs and not c.is_async and isinstance(c.target, ast.Name):
                     it = self.expr(c.iter, env)
                     if it.type == 'StrList':
@@ -1965,6 +2022,12 @@ class Fn:
             return self.take_pre() + [f"let out' : List Trig := (out' ++ [{v.lean}])"] + self.block(rest, env, tail)
         if isinstance(s, ast.Expr) and is_append(s.value):
             name = s.value.func.value.id
+            if name in env and env[name].lean in self.narrow and self.narrow[env[name].lean].type.startswith('List:') and s.value.func.attr == 'append':
+                lst, v = self.narrow[env[name].lean], self.expr(s.value.args[0], env)      # a value of a union known to be a list
+                if v.type != lst.type[5:]:
+                    self.fail(s, f'append of a {v.type} to a {lst.type}')
+                env, line = self.bind(env, name, V(f'({lst.lean} ++ [{v.lean}])', lst.type, None))
+                return self.take_pre() + [line] + self.block(rest, env, tail)
             if name not in env or not (env[name].type in ('Builder', 'StrList', 'CompList', 'ItemList') or env[name].type.startswith('List:')):
                 self.fail(s, f'`{name}.append(..)` on something that is not a local list')
             x, v = env[name], self.expr(s.value.args[0], env)
@@ -2004,6 +2067,20 @@ class Fn:
             return ['throw Exc.valueError']      # the message is not part of the model
         if isinstance(s, ast.Try):
             return self.try_(s, rest, env, tail)
+        if isinstance(s, ast.Assign) and len(s.targets) == 1 and isinstance(s.targets[0], ast.Subscript) \
+                and isinstance(s.targets[0].value, ast.Name) and s.targets[0].value.id in env \
+                and self.t.externals.get(s.targets[0].value.id + '[]=', ('',))[0] == 'setitem':
+            e, name = self.t.externals[s.targets[0].value.id + '[]='], s.targets[0].value.id
+            v = self.expr(s.value, env)      # the right side first, then the key
+            k = self.expr(s.targets[0].slice, env)
+            obj = env[name]
+            if e[3].startswith('U:') and v.type != e[3]:
+                v = to_union(self.narrow.get(v.lean, v), e[3]) or v
+            if (k.type, v.type) != (e[2], e[3]) or obj.elts is not None:
+                self.fail(s, f'`{ast.unparse(s)[:50]}`: key {k.type}, value {v.type}; declared {e[2]}, {e[3]}')
+            f = self.param(e[1], f'{lean_type(obj.type)} → {lean_type(e[2])} → {lean_type(e[3])} → {lean_type(obj.type)}')
+            env, line = self.bind(env, name, V(f'({f.lean} {obj.lean} {k.lean} {v.lean})', obj.type, None))
+            return self.take_pre() + [line] + self.block(rest, env, tail)
         if isinstance(s, ast.Assign) and len(s.targets) == 1 and isinstance(s.targets[0], ast.Name):
             v = self.expr(s.value, env)
             if s.targets[0].id.startswith('self__') and getattr(self, 'fields', None) is not None:
@@ -2293,6 +2370,16 @@ class Fn:
             lines.append(line)
         return lines + self.block(rest, env, tail)
 
+    def as_declared(self, name, v):
+        """a variable declared (locals) to hold a union, at a point where paths meet: its value as a value of the union"""
+        want = (self.t.locals or {}).get(name)
+        if want is not None and want.startswith('U:') and v.type != want:
+            x = self.narrow.get(v.lean, v)
+            w = to_union(x, want)
+            if w is not None:
+                return w
+        return v
+
     def union_test(self, node, env):
         """`isinstance(x, C)` / `isinstance(x, (C1, C2))` on a variable of a union type that is not yet known to be of one
         member: (the variable, the constructors still possible that the test accepts, those still possible)"""
@@ -2301,7 +2388,8 @@ class Fn:
                 and isinstance(node.args[0], ast.Name) and node.args[0].id in env):
             return None
         x = env[node.args[0].id]
-        if not x.type.startswith('U:') or x.lean in self.narrow or not re.fullmatch(r"[A-Za-z_][\w']*", x.lean):
+        if not x.type.startswith('U:') or x.lean in self.narrow or not re.fullmatch(r"[A-Za-z_][\w']*", x.lean) \
+                or ast.unparse(node) in self.t.externals:
             return None
         u = UNIONS[x.type[2:]]
         names = node.args[1].elts if isinstance(node.args[1], ast.Tuple) else [node.args[1]]
@@ -2309,7 +2397,15 @@ class Fn:
         for n in names:
             if not (isinstance(n, ast.Name) and n.id in u['classes']):
                 self.fail(node, f'instance test of a {x.type[2:]} for `{ast.unparse(n)}`')
-            if n.id != 'tuple' and self.modnames.get(n.id) != 'datetime.' + n.id:
+            if n.id == 'SEQUENCE_TYPES':      # a module constant of parser_tools.py: it must be (list, tuple)
+                pt = X.parse(os.path.join(self.src_dir, 'parser_tools.py'))
+                val = X.find_assign(pt.body, 'SEQUENCE_TYPES')
+                if self.modnames.get(n.id) != 'icalendar.parser_tools.SEQUENCE_TYPES' or val is None or ast.unparse(val) != '(list, tuple)':
+                    self.fail(node, 'SEQUENCE_TYPES is not `(list, tuple)` of icalendar.parser_tools')
+            elif n.id in ('list', 'tuple'):
+                if n.id in self.modnames or n.id in env:
+                    self.fail(node, f'`{n.id}` is rebound')
+            elif self.modnames.get(n.id) != 'datetime.' + n.id:
                 self.fail(node, f'`{n.id}` is not the class of the datetime module')
             acc += [c for c in u['classes'][n.id] if c not in acc]
         allc = list(u['members'].values()) + ([u['pair']] if 'pair' in u else [])
@@ -2323,7 +2419,7 @@ class Fn:
         return f'.{ctor} {v}', V(v, next(t for t, c in u['members'].items() if c == ctor), None)
 
     def if_(self, s, rest, env, tail):
-        if isinstance(s.test, ast.BoolOp) and isinstance(s.test.op, ast.And) and self.union_test(s.test.values[0], env) is not None:
+        if isinstance(s.test, ast.BoolOp) and isinstance(s.test.op, ast.And) and any(self.union_test(v, env) is not None for v in s.test.values):
             # `isinstance(x, C) and B`: B is evaluated knowing what x is
             vals = s.test.values
             second = vals[1] if len(vals) == 2 else ast.copy_location(ast.BoolOp(op=ast.And(), values=vals[1:]), s.test)
@@ -2346,11 +2442,20 @@ class Fn:
             do = ' do' if self.monadic else ''
             old_ex = dict(self.excluded)
             pre = self.take_pre()
+            remaining = [c for c in left if c not in acc]
+            pat_no = '_'
+            old_nar = dict(self.narrow)
             try:
                 self.excluded[x.lean] = set(self.excluded.get(x.lean, ())) | set(acc)
+                u_all = list(UNIONS[x.type[2:]]['members'].values()) + ([UNIONS[x.type[2:]]['pair']] if 'pair' in UNIONS[x.type[2:]] else [])
+                if len(remaining) == 1 and len(left) == len(u_all):     # two members in all: the value is known in this branch too
+                    self.fresh += 1
+                    pat_no, val_no = self.union_payload(x, remaining[0], f"n{self.fresh}'")
+                    self.narrow[x.lean] = val_no
                 nb = self.block(no + rest, env, tail)
             finally:
                 self.excluded = old_ex
+                self.narrow = old_nar
             if len(acc) == 1:
                 self.fresh += 1
                 v = f"n{self.fresh}'"
@@ -2361,14 +2466,14 @@ class Fn:
                     yb = self.block(yes + rest, env, tail)
                 finally:
                     self.narrow = old
-                return pre + [f'match {x.lean} with', f'| {pat} =>{do}'] + ind(yb) + [f'| _ =>{do}'] + ind(nb)
+                return pre + [f'match {x.lean} with', f'| {pat} =>{do}'] + ind(yb) + [f'| {pat_no} =>{do}'] + ind(nb)
             try:
                 self.excluded[x.lean] = set(self.excluded.get(x.lean, ())) | {c for c in left if c not in acc}
                 yb = self.block(yes + rest, env, tail)
             finally:
                 self.excluded = old_ex
             pats = ' | '.join('.' + c + (' _ _' if c == UNIONS[x.type[2:]].get('pair') else ' _') for c in acc)
-            return pre + [f'match {x.lean} with', f'| {pats} =>{do}'] + ind(yb) + [f'| _ =>{do}'] + ind(nb)
+            return pre + [f'match {x.lean} with', f'| {pats} =>{do}'] + ind(yb) + [f'| {pat_no} =>{do}'] + ind(nb)
         st = self.static(s.test, env)
         if st is not None:      # decided by a specialised argument: only the branch taken is translated
             skipped = s.orelse if st else s.body
@@ -2431,8 +2536,9 @@ class Fn:
                 for n in merged:
                     if n not in e:
                         self.fail(s, f'`{n}` is read later but bound on one path only')
-                store.append([e[n] for n in merged])
-                return ['«T»(' + ', '.join(e[n].lean for n in merged) + ')'] if merged else ['«T»()']
+                vals = [self.as_declared(n, e[n]) for n in merged]
+                store.append(vals)
+                return ['«T»(' + ', '.join(v.lean for v in vals) + ')'] if merged else ['«T»()']
             return make
         self.fresh += 1
         m = f"m{self.fresh}'"
@@ -2556,9 +2662,9 @@ class Fn:
             itv = self.expr(it, env)
         if itv.type == 'Vals':      # iterating what `self[name]` gave: a TypeError unless it is a list
             itv = self.hoist(s, f'PyVals.elems {itv.lean}', 'ValList')
-        if not (itv.type in ITER or itv.type.startswith('List:')) or s.orelse:
+        if not (itv.type in ITER or itv.type.startswith('List:') or itv.type.startswith('Pairs:')) or s.orelse:
             self.fail(s, f'`for` over a value of type {itv.type}' if itv.type not in ITER else '`for .. else`')
-        if cname in self.pairtarget and itv.type != 'ItemList':
+        if cname in self.pairtarget and itv.type != 'ItemList' and not itv.type.startswith('Pairs:'):
             self.fail(s, f'`for {ast.unparse(tgt)}` over a value of type {itv.type} (only a list of pairs (name, value))')
         return self.loop(s, rest, env, tail, iname, cname, itv, None)
 
@@ -2586,7 +2692,7 @@ class Fn:
         asg = self.assigned_env(s.body, env)
         stored = {n.id for st in s.body for n in ast.walk(st) if isinstance(n, ast.Name) and isinstance(n.ctx, ast.Store)}
         asg = [n for n in asg if not (n in targets and n not in stored)]    # `v.attr = x` on the loop variable: local to the iteration
-        if targets & set(asg):
+        if (targets - set(self.pairtarget.get(cname, ()))) & set(asg):     # `for a, b in ..: a = ..` rebinds a within the iteration
             self.fail(s, 'the loop body assigns the loop variable')
         state = [n for n in asg if n in env and n not in targets]
         later = reads(rest) | set(tail.names)
@@ -2629,7 +2735,7 @@ class Fn:
             if re.fullmatch(r"[A-Za-z_][\w']*", n) and n not in inner and word(n) and n not in [c[0] for c in caps]:
                 caps.append((n, typ))
         capsig = ('«EXTSIG»' if self.objself else '') + ''.join(f' ({n} : {lean_type(t)})' for n, t in caps)
-        if self.t.group in ('parse', 'alarm'):     # the opaque types the loop mentions
+        if self.t.group in ('parse', 'alarm', 'recur', 'add'):     # the opaque types the loop mentions
             ops = opaque_types([lean_type(t) for _, t in caps] + [lean_type(slots[n]) for n in state]
                                + ([lean_type(itv.type)] if itv is not None else []))
             capsig = ''.join(f' {{{o} : Type}}' for o in ops) + capsig
@@ -2737,10 +2843,16 @@ class Fn:
         for n in state:
             benv[n] = V(lname(n), slots[n], None)
         if cname:
-            benv[cname] = V(lname(cname), (ITER.get(itv.type) or itv.type[5:]) if itv is not None else 'Char', None)
+            benv[cname] = V(lname(cname), (ITER.get(itv.type) or ('Tuple:Str × ' + lean_type(itv.type[6:]) if itv.type.startswith('Pairs:') else itv.type[5:]))
+                            if itv is not None else 'Char', None)
         if cname in self.pairtarget:
-            benv[self.pairtarget[cname][0]] = V(f'{lname(cname)}.1', 'Str', None)
-            benv[self.pairtarget[cname][1]] = V(f'{lname(cname)}.2', 'IV', None)
+            pt = itv.type[6:] if itv.type.startswith('Pairs:') else 'IV'
+            if itv.type.startswith('Pairs:'):      # named, so that instance tests can tell what the value is
+                benv[self.pairtarget[cname][0]] = V(lname(self.pairtarget[cname][0]), 'Str', None)
+                benv[self.pairtarget[cname][1]] = V(lname(self.pairtarget[cname][1]), pt, None)
+            else:
+                benv[self.pairtarget[cname][0]] = V(f'{lname(cname)}.1', 'Str', None)
+                benv[self.pairtarget[cname][1]] = V(f'{lname(cname)}.2', pt, None)
         if iname:
             benv[iname] = V(lname(iname), 'Int', None)
         cur = lambda e: [e[n].lean for n in state]   # noqa: E731
@@ -2761,6 +2873,9 @@ class Fn:
             c = self.test(s.test, benv)
             test_lines = self.take_pre() + [c]
         body = self.block(s.body, benv, Tail(state, again))
+        if cname in self.pairtarget and itv is not None and itv.type.startswith('Pairs:'):
+            a, b = self.pairtarget[cname]
+            body = [f'let {lname(a)} : Str := {lname(cname)}.1', f'let {lname(b)} : {lean_type(itv.type[6:])} := {lname(cname)}.2'] + body
         return body, test_lines
 
     def translate(self):
@@ -2801,6 +2916,8 @@ class Fn:
             self.parent = {c: p for p in ast.walk(self.func) for c in ast.iter_child_nodes(p)}
             for f in self.fields:
                 FIELD_LNAME['self__' + f] = t.self_attrs[f][0]
+        if (t.self_type or '').startswith('State:'):     # the object itself is a value that the method changes and leaves
+            env['self'] = self.param('self_', t.self_type[6:])
         for n, typ in (t.args or {}).items():
             if typ == 'Object':     # an object that is only used through attributes declared as parameters
                 continue
@@ -2819,6 +2936,9 @@ class Fn:
         gen = any(isinstance(n, (ast.Yield, ast.YieldFrom)) for n in ast.walk(self.func))
 
         def off_end(e):
+            if (t.self_type or '').startswith('State:'):      # returns None: the state it leaves
+                self.rtype = t.self_type[6:]
+                return [self.ret(e['self'].lean)]
             if self.fields is not None:       # a method that returns None: what it leaves in the attributes it writes
                 return self.fields_out(e)
             if gen:     # a generator that is exhausted: the list of what it yielded
@@ -2829,7 +2949,7 @@ class Fn:
             if any(isinstance(n, (ast.Return, ast.YieldFrom)) for n in ast.walk(self.func)):
                 self.fail(self.func, 'generator with `return` / `yield from`')
             env["out'"] = V("out'", 'DList', None)
-        top = Tail(["out'"] if gen else ['self__' + f for f in (self.fields or [])], off_end)
+        top = Tail(["out'"] if gen else ['self'] if (t.self_type or '').startswith('State:') else ['self__' + f for f in (self.fields or [])], off_end)
         saved = list(self.used)
         try:
             return self.block(self.func.body, env, top)
@@ -2972,13 +3092,21 @@ HEADERS['parse'] = ['/- GENERATED by tools/py2lean.py (called from tools/extract
                     '   is a parameter.  `component = stack[-1] if stack else None` is an alias of the top of the stack. -/',
                     'import ICal.Model.PyRT', 'set_option linter.unusedVariables false',
                     'namespace ICal.Gen.BodiesParse', 'open ICal ICal.PyRT', '']
+NAMESPACE['add'] = 'ICal.Gen.BodiesAdd'
+HEADERS['add'] = ['/- GENERATED by tools/py2lean.py (called from tools/extract.py) from Component.add of src/icalendar/cal.py.',
+                  '   Do not edit: regenerated on every run; lean/ICal/Lemmas/BodiesAdd.lean proves it equal to the hand-written model',
+                  '   (ICal/Model/Encode.lean: `addProp`).  The mapping `self` is an opaque state: what is asked of it and done to it is a',
+                  '   parameter, the function returns the state it leaves.  The argument and what is stored are one object or a list',
+                  '   (`PyOneMany`); `isinstance(x, list)` tells which and the value is used accordingly from there on. -/',
+                  'import ICal.Model.PyRTDec', 'set_option linter.unusedVariables false',
+                  'namespace ICal.Gen.BodiesAdd', 'open ICal ICal.PyRT', '']
 NAMESPACE['recur'] = 'ICal.Gen.BodiesRecur'
 HEADERS['recur'] = ['/- GENERATED by tools/py2lean.py (called from tools/extract.py) from vRecur.parse_type / from_ical / to_ical of',
                     '   src/icalendar/prop.py. Do not edit: regenerated on every run; lean/ICal/Lemmas/BodiesRecur.lean proves each equal',
                     '   to the hand-written model (ICal/Model/Recur.lean).  The rule (a CaselessDict), the part classes and the part',
                     '   values are opaque: everything done with them is a parameter.  What is stored under a key is one value or a',
                     '   sequence (`PyOneMany`); `isinstance(vals, SEQUENCE_TYPES)` tells which. -/',
-                    'import ICal.Model.PyRT', 'set_option linter.unusedVariables false',
+                    'import ICal.Model.PyRTDec', 'set_option linter.unusedVariables false',
                     'namespace ICal.Gen.BodiesRecur', 'open ICal ICal.PyRT', '']
 NAMESPACE['se'] = 'ICal.Gen.BodiesSE'
 HEADERS['se'] = ['/- GENERATED by tools/py2lean.py (called from tools/extract.py) from Event.end / Todo.end of src/icalendar/cal.py and',
@@ -3104,7 +3232,7 @@ def translate(src_dir, group='enc'):
         sig = ''.join(f' ({p} : {lean_type(ty)})' for p, ty in fn.used)
         opaque = sorted({e[3] for e in t.externals.values() if isinstance(e[0], str) and e[0] in ('pfun', 'expr') and e[3] not in LEAN_TYPE and e[3] != 'Object' and ':' not in e[3]})
         opaque = sorted(set(opaque) | {o for o in ('AT',) if re.search(r'\b' + o + r'\b', sig)})
-        if group in ('parse', 'alarm'):
+        if group in ('parse', 'alarm', 'recur', 'add'):
             opaque = opaque_types([lean_type(ty) for _, ty in fn.used] + [fn.rtype_lean or lean_type(fn.rtype)])
         sig = ''.join(f' {{{o} : Type}}' for o in opaque) + sig
         rt = fn.rtype_lean or lean_type(fn.rtype)
